@@ -58,7 +58,8 @@ Judge1(cat, pre, e) ==
              preserves |-> AppendPreserves(pre, cmd, post),
              happens |-> AppendHappens(pre, cmd, post, F),
              sniff |-> SniffOK(pre, e.hooks),
-             wrote |-> WroteOK(pre, cmd, cat, e.hooks),
+             wrote |-> WroteOK(pre, cmd, cat, e.hooks)
+                       /\ ((~e.same /\ e.hooks # <<>>) => \E i \in DOMAIN e.hooks : e.hooks[i].ev = "Save" /\ e.hooks[i].wrote),      \* a changed target was announced by a Save event
              capacity |-> CapacityRespected(pre, cmd, post, F),
              \* C15: every file stored takes ONE directory slot - a disk that was written holds as many entries as before plus the new files
              oneslot |-> (post # pre /\ post.kind = "dsk") => Len(post.files) = (IF pre.kind = "dsk" THEN Len(pre.files) ELSE 0) + Len(cmd.new),
